@@ -135,6 +135,7 @@ type local struct {
 	serve     Reply // decision for the Get in flight
 	cbCount   int
 	writeSeen int
+	retained  []retainedBytes // results of earlier ExecuteBytes calls, still owned by the caller
 }
 
 // ---------------------------------------------------------------------------------
